@@ -234,11 +234,15 @@ def run(prop, theorems, tier, replay=None, extra_gen=None, known_classifier=None
                                     n = "ERROR:" + bytes.fromhex(sl.frame_get(f, "reason")).decode()
                                 link_stats.setdefault("link_frames_observed", {})
                                 link_stats["link_frames_observed"][n] = link_stats["link_frames_observed"].get(n, 0) + 1
-                    for (tagv, what, t) in ll.link_monitor(c, ob):
+                    for (tagv, what, t) in (ll.conc_monitor(c, ob) if c.get("conc") else ll.link_monitor(c, ob)):
                         if tagv in want:
                             violations.append((tagv, what, c, t))
                 if okl:
-                    bad, cout = coq_eval(ll.PRELUDE, ll.link_conf_terms(lcases, obs), kind="bool", tag=tag + "lc")
+                    seq = [(c, ob) for c, ob in zip(lcases, obs) if not c.get("conc")]
+                    con = [(c, ob) for c, ob in zip(lcases, obs) if c.get("conc")]
+                    lcases = [c for c, _ in seq] + [c for c, _ in con]
+                    terms = ll.link_conf_terms([c for c, _ in seq], [o for _, o in seq]) + ll.conc_conf_terms([c for c, _ in con], [o for _, o in con])
+                    bad, cout = coq_eval(ll.PRELUDE, terms, kind="bool", tag=tag + "lc")
                     if bad is None:
                         broken.append("link correspondence could not be evaluated: " + cout[-600:])
                     else:
@@ -282,7 +286,7 @@ def run(prop, theorems, tier, replay=None, extra_gen=None, known_classifier=None
         search(cases, "q")
         if link:
             import linklib as ll
-            link_search(ll.gen_link_histories(r, 1500 if thorough else 150) if "link" in link else [],
+            link_search((ll.gen_link_histories(r, 1500 if thorough else 150) + ll.gen_conc_link_histories(r, 400 if thorough else 40)) if "link" in link else [],
                         ll.gen_client_cases(r, 600 if thorough else 60) if "client" in link else [], "q")
         if extra_stage:
             extra_stage(thorough, violations, link_stats)
@@ -294,7 +298,7 @@ def run(prop, theorems, tier, replay=None, extra_gen=None, known_classifier=None
                     more.append(d["case"])
             search(more, "x")
             if link:
-                link_search(ll.gen_link_histories(Rng(seed() + 104729), 600) if "link" in link else [],
+                link_search((ll.gen_link_histories(Rng(seed() + 104729), 600) + ll.gen_conc_link_histories(Rng(seed() + 104729), 200)) if "link" in link else [],
                             ll.gen_client_cases(Rng(seed() + 104729), 300) if "client" in link else [], "x")
 
     coverage = {
